@@ -51,6 +51,8 @@ type universe struct {
 	// Preload: Services that exist, with recorded statuses, when the (first) controller instance starts -
 	// the initial state is then a restart on that store.
 	Preload []preSvc
+	// LBClass: the controller is started with --lb-class=<LBClass> (it then only handles Services of that class)
+	LBClass string
 }
 
 type preSvc struct {
@@ -227,6 +229,7 @@ func (s *ctlSys) start() {
 		},
 	}
 	s.sr = &controllers.ServiceReconciler{Client: s.store, Logger: log.NewNopLogger(), Handler: s.lst.ServiceHandler, Reload: s.reloadCh}
+	s.sr.LoadBalancerClass = s.u.LBClass
 	s.pr = &controllers.PoolReconciler{Client: s.store, Logger: log.NewNopLogger(), Namespace: verifNS, Handler: s.lst.PoolHandler,
 		ValidateConfig: config.DontValidate, ForceReload: func() { s.reloadCh <- controllers.NewReloadEvent() }}
 }
